@@ -1,12 +1,14 @@
 #!/bin/bash
 # Mechanical sensitivity campaign: syntactic mutants (tools/mutate) of the anchored source files that still compile and
 # still pass the relevant upstream test packages are run against the properties' quick checks (VERIF_REPO = scratch worktree).
-# usage: tools/mutation_campaign.sh [max mutants per file (default 40)]  -> /var/tmp/mutation.tsv
+# usage: tools/mutation_campaign.sh [max mutants per file (default 40)] [instance k] [instances n]  -> /var/tmp/mutation.<k>.tsv
+# (instance k of n takes every n-th target file; run n instances side by side)
 set -u
 export GOFLAGS=-mod=mod GOPROXY=off GOSUMDB=off
 MAXPER=${1:-40}
-OUT=${MUT_OUT:-/var/tmp/mutation.tsv}
-wt=/var/tmp/mut-wt
+INST=${2:-0}; NINST=${3:-1}
+OUT=${MUT_OUT:-/var/tmp/mutation.$INST.tsv}
+wt=/var/tmp/mut-wt-$INST
 cd /verif
 [ -x /verif/.cache/mutate ] || (cd tools/mutate && go build -o /verif/.cache/mutate .)
 rm -rf $wt; git -C /repo worktree prune; git -C /repo worktree add --detach $wt HEAD -q || exit 2
@@ -52,6 +54,7 @@ components/metrics/handler.go|./components/metrics/|C20
 echo -e "file\tmutant\top\tline\tdescription\tverdict\tdetail" > $OUT
 echo "$targets" | while IFS='|' read -r file pkgs props; do
   [ -z "$file" ] && continue
+  idx=$(( ${idx:--1} + 1 )); [ $(( idx % NINST )) -ne $INST ] && continue
   md=/var/tmp/mutants/$(echo $file | tr '/' '_')
   rm -rf $md; /verif/.cache/mutate -file /repo/$file -out $md >/dev/null
   total=$(wc -l < $md/index.tsv)
@@ -69,7 +72,7 @@ echo "$targets" | while IFS='|' read -r file pkgs props; do
     fi
     verdict="SURVIVED"; detail=""
     for p in $props; do
-      out=$(cd /verif && VERIF_REPO=$wt VERIF_BUDGET_S=12 VERIF_EVIDENCE_DIR=/var/tmp/seed-evidence VERIF_REPLAY_DIR=/var/tmp/mut-replays ./check $p quick 2>&1); rc=$?
+      out=$(cd /verif && VERIF_REPO=$wt VERIF_BUDGET_S=12 VERIF_WORKERS=4 VERIF_EVIDENCE_DIR=/var/tmp/seed-evidence-$INST VERIF_REPLAY_DIR=/var/tmp/mut-replays-$INST ./check $p quick 2>&1); rc=$?
       if [ $rc -eq 1 ]; then
         verdict="DETECTED"; detail="$p: $(echo "$out" | grep -m1 -oE "rule=[A-Z0-9.]+ sig=('[^']*'|\"[^\"]*\")" | cut -c1-160)"; break
       elif [ $rc -ne 0 ]; then
